@@ -58,7 +58,9 @@ def run_phases(ctx, pid, what):
         for mm in re.finditer(r'"NONCONFORMING",\s*"(C\d\d)[^"]*?([A-Za-z][^"]*)"', r.out):
             examples.setdefault(mm.group(1), mm.group(2))
         traces.append((tr, gmp))
-    if tot["HARNESS"]:
+    # an ill-formed trace (an exit event without its enter) alone decides nothing; next to recorded violations of the
+    # property's own predicates it is their consequence (a handler that ran outside the event loop outlives its session)
+    if tot["HARNESS"] and not tot[pid]:
         raise common.Inconclusive("the recorded trace is malformed (exit without enter): harness problem")
     if tot[pid]:
         rp = ctx.save_replay(failing or traces[-1][0], "phases-trace.ndjson")
